@@ -47,22 +47,26 @@ End ComposeP.
 
 (* ---------------------------------------------------------------- over the generated table *)
 
-(* what initPluginHooks installs for a row, as a function of the collected wrappers (in
-   plugin_order) and of the hook the fold starts from *)
-Definition installed {H : Type} (row : hook_row) (ws : list (H -> H)) (base : H) : H :=
+(* what initPluginHooks installs for a row, as a function of the contents of the local wrapper
+   slices (`sl` maps the name of a slice to the wrappers collected into it, in plugin_order) and of
+   the hook the fold starts from: the loop runs over the LENGTH of slice hr_bound and takes its
+   wrappers from slice hr_indexed *)
+Definition installed {H : Type} (row : hook_row) (sl : string -> list (H -> H)) (base : H) : H :=
   if hr_applied row then
     match hr_dir row with
-    | Desc => loop_desc ws (List.length ws) base
-    | Asc => loop_asc ws base
+    | Desc => loop_desc (sl (hr_indexed row)) (List.length (sl (hr_bound row))) base
+    | Asc => loop_asc (firstn (List.length (sl (hr_bound row))) (sl (hr_indexed row))) base
     | NoLoop => base
     end
   else base.
 
 Definition row_installed (row : hook_row) : bool := hr_collected row && hr_applied row.
 
-(* shape of an apply block: folds downwards, starts from and stores to the hook of its kind *)
+(* shape of an apply block: folds downwards over the field's OWN slice (bound and indexed slice are
+   the slice the field is collected into), starts from and stores to the hook of its kind *)
 Definition row_order_ok (row : hook_row) : bool :=
   match hr_dir row with Desc => true | _ => false end
+  && String.eqb (hr_bound row) (hr_slice row) && String.eqb (hr_indexed row) (hr_slice row)
   && String.eqb (hr_base row) (hr_kind row) && String.eqb (hr_store row) (hr_kind row).
 
 Fixpoint strs_eqb (a b : list string) : bool :=
@@ -117,15 +121,30 @@ Qed.
 Theorem order_installed :
   forall row, In row hook_rows -> hr_applied row = true ->
     hr_base row = hr_kind row /\ hr_store row = hr_kind row /\
-    forall (H : Type) (ws : list (H -> H)) (base : H), installed row ws base = compose ws base.
+    hr_bound row = hr_slice row /\ hr_indexed row = hr_slice row /\
+    forall (H : Type) (sl : string -> list (H -> H)) (base : H),
+      installed row sl base = compose (sl (hr_slice row)) base.
 Proof.
   intros row Hin Ha. pose proof (order_table row Hin Ha) as Ok.
-  unfold row_order_ok in Ok. apply andb_true_iff in Ok as [Ok Hs]. apply andb_true_iff in Ok as [Hd Hb].
-  apply String.eqb_eq in Hs. apply String.eqb_eq in Hb.
-  split; [exact Hb|]. split; [exact Hs|].
-  intros H ws base. unfold installed. rewrite Ha.
+  unfold row_order_ok in Ok. apply andb_true_iff in Ok as [Ok Hs]. apply andb_true_iff in Ok as [Ok Hb].
+  apply andb_true_iff in Ok as [Ok Hi]. apply andb_true_iff in Ok as [Hd Hbd].
+  apply String.eqb_eq in Hs. apply String.eqb_eq in Hb. apply String.eqb_eq in Hi. apply String.eqb_eq in Hbd.
+  split; [exact Hb|]. split; [exact Hs|]. split; [exact Hbd|]. split; [exact Hi|].
+  intros H sl base. unfold installed. rewrite Ha, Hbd, Hi.
   destruct (hr_dir row); try discriminate. apply loop_desc_compose.
 Qed.
+
+(* the collect slices are pairwise different: no two fields share a slice *)
+Fixpoint nodup_strs (l : list string) : bool :=
+  match l with [] => true | x :: tl => negb (existsb (String.eqb x) tl) && nodup_strs tl end.
+
+Lemma slices_distinct : nodup_strs (map hr_slice hook_rows) = true.
+Proof. vm_compute. reflexivity. Qed.
+
+(* a loop bounded by the length of ANOTHER slice installs something else: too short a bound drops
+   the wrappers of the first plugins *)
+Example wrong_bound_differs : loop_desc [tag 1; tag 2; tag 3] 1 [] = [1] /\ compose [tag 1; tag 2; tag 3] [] = [1; 2; 3].
+Proof. split; reflexivity. Qed.
 
 (* non-vacuity: the nesting matters, and the two loop shapes differ *)
 Example compose_trace : compose [tag 1; tag 2; tag 3] [] = [1; 2; 3].
